@@ -12,11 +12,15 @@ from .vlib import log
 class AtomicPart:
     def __init__(self, name, scn_cpp, lib_sources, model, scenarios, std=None, extra_flags=(),
                  quick=dict(preemptions=2, max_execs=4000), thorough=dict(preemptions=3, max_execs=60000),
-                 random_execs=(300, 5000), harness_args=()):
+                 random_execs=(300, 5000), harness_args=(), always_report_rejected=False):
         self.name, self.scn_cpp, self.lib_sources, self.model = name, scn_cpp, lib_sources, model
         self.scenarios, self.std, self.extra_flags = scenarios, std, extra_flags
         self.quick, self.thorough, self.random_execs = quick, thorough, random_execs
         self.harness_args = list(harness_args)
+        # report histories the model does not admit even if a monitor fired in the same scenario (for
+        # scenarios with an open known finding whose failing histories the model DOES admit: the tie
+        # must stay alive there)
+        self.always_report_rejected = always_report_rejected
 
     def run(self, tier, seed, verdict, cov, driver):
         t0 = time.time()
@@ -64,7 +68,7 @@ class AtomicPart:
                 # tie (the property is no longer shown to hold) without a failing input.
                 cov["rejected_histories"] += len(rejected)
                 had_monitor = any(v[0].startswith(f"{self.name}/{scn}:") for v in verdict.violations)
-                if not had_monitor:
+                if not had_monitor or self.always_report_rejected:
                     h, sched, ans = rejected[0]
                     verdict.add(f"{self.name}/{scn}: history not admitted by Lean model {self.model}",
                                 f"{len(rejected)} of {len(seen)} distinct histories are not traces of the model ({ans})",
